@@ -82,11 +82,26 @@ def run(ctx):
 def corridor(ctx):
     """a long one-way corridor numbered along the way, every state paying reward 1: a stopping game in which the largest change
     per sweep stays exactly 1 for more than a thousand sweeps before it drops to 0 - slow progress is not divergence"""
-    n = 1101
+    for n in ((1101,) if ctx.quick else (1101, 2501)):
+        corridor_of(ctx, n)
+    if not ctx.quick:
+        # ... and a three-state game whose reward loop needs about 1.4 million sweeps (self-loop left with probability 1e-5)
+        g = dict(players=[PR, PR, PR], rewards=[1, 0, 0], transition_list=[[(0.99999, 0), (0.000009, 1), (0.000001, 2)], [(1, 1)], [(1, 2)]],
+                 final_states=[1])
+        res = impl.run_cases([dict(op="solve", game=enc(g), prune=p, limit=300) for p in (True, False)], limit=300, tag="c06m")
+        for prune, r in zip((True, False), res):
+            ctx.evaluations += 1
+            ctx.count("game needing more than a million sweeps")
+            if "timeout" not in r and "ok" not in r:
+                ctx.violation("a stopping game needing ~1.4 million reward sweeps is neither solved nor declared unsolvable: %s: %s"
+                              % (r.get("exc"), r.get("msg")), dict(game=enc(g), game_repr=repr(g), prune=prune, op="solve"))
+
+
+def corridor_of(ctx, n):
     g = dict(players=[PR] * n, rewards=[1] * (n - 1) + [0], transition_list=[[(1, i + 1)] for i in range(n - 1)] + [[(1, n - 1)]],
              final_states=[n - 1])
-    res = impl.run_cases([dict(op="solve", game=enc(g), prune=True, limit=120), dict(op="solve", game=enc(g), prune=False, limit=120)],
-                         limit=120, tag="c06c")
+    res = impl.run_cases([dict(op="solve", game=enc(g), prune=True, limit=300), dict(op="solve", game=enc(g), prune=False, limit=300)],
+                         limit=300, tag="c06c")
     for prune, r in zip((True, False), res):
         ctx.evaluations += 1
         ctx.count("corridor of %d states" % n)
